@@ -1,0 +1,42 @@
+//go:build verif
+
+// Verification contracts (comments only; compiled only with -tags verif).
+// Checked by /verif/bin/govc; see /verif/DESIGN.md.
+
+package advanced
+
+//@ // ---- C02: a one-off job runs exactly once, whoever starts it ----
+//@
+//@ // a job's channels are closed only once it is marked finalised (both under its state lock)
+//@ type job
+//@   lockinv stateLock: (closed(self.runCh) ==> atomic(self.finalised)) && (closed(self.cancelCh) ==> atomic(self.finalised))
+//@
+//@ // an early-run request succeeds only by claiming a job that is neither running nor finished; the claim is the
+//@ // active flag, and the run signal has then been sent
+//@ func (*Service).runJob
+//@   requires job != nil && job.runCh != nil && nolocks()
+//@   // the scheduler's error values are errors (set once by the package initialiser)
+//@   requires !isnil(scheduler.ErrJobRunning) && !isnil(scheduler.ErrJobFinalised)
+//@   ensures result == nil ==> atomic(job.active)
+//@   ensures result == nil ==> sends() == 1
+//@   ensures result != nil ==> sends() == 0
+//@
+//@ // the goroutine of a one-off job
+//@ func (*Service).ScheduleJob$1
+//@   thread
+//@   // what ScheduleJob hands over: the service, a fresh job with open channels, the function to run
+//@   requires s != nil && job != nil && jobFunc != nil && nolocks() && job.cancelCh != job.runCh && !closed(job.cancelCh) && !closed(job.runCh) && !atomic(job.finalised)
+//@   // the job function runs at most once, on every way out
+//@   exit calls(jobFunc) <= 1
+//@   // when the timer fires the job runs: started by the timer, or - if an early-run request has claimed it in the
+//@   // meantime - on that request's run signal, which is taken here because nothing else would take it
+//@   exit calls(Load) == 1 ==> calls(jobFunc) == 1
+//@   // an early-run signal runs the job
+//@   exit calls(monitorJobStartedOnSignal) == 1 ==> calls(jobFunc) == 1
+//@   // and whichever way the goroutine ends, the job is finalised exactly once (its channels are closed once)
+//@   exit calls(finaliseJob) == 1
+//@
+//@ // finalising happens once per job, by the goroutine that owns it
+//@ func finaliseJob
+//@   requires job != nil && nolocks() && job.cancelCh != job.runCh && !closed(job.cancelCh) && !closed(job.runCh)
+//@   ensures closed(job.cancelCh) && closed(job.runCh) && atomic(job.finalised)
